@@ -1514,8 +1514,8 @@ class TransactionBuilder:
         collateral_amount = (
             max_tx_fee(context=self.context, ref_script_size=self._ref_script_size())
             * self.context.protocol_param.collateral_percent
-            // 100
-        )
+            + 99
+        ) // 100
 
         if not self.collaterals:
             tmp_val = Value()
